@@ -12,7 +12,7 @@ import (
 func init() {
 	eng.Register(&eng.Check{
 		ID:          "C03",
-		Rule:        "differential on the implementation: all ordered pairs (A,B) of a pool of sub-expressions (atoms of every operator, absent-key atoms, erroring atoms, quantified, negated, nested) x a data set on which each sub-expression takes each of T/F/E; composites (A) and (B), (A) or (B), not (A), not not (A) and both De Morgan rewrites are compared with the 3x3 / 3x1 outcome table applied to the implementation's own outcomes of A and B evaluated alone. Distinct by construction; non-trivial = composite evaluated (every case exercises a connective). The evidence lists which table cells were observed.",
+		Rule:        "differential on the implementation: all ordered pairs (A,B) of a pool of sub-expressions (atoms of every operator, absent-key atoms, erroring atoms, quantified, negated, nested) x a data set on which each sub-expression takes each of T/F/E; composites (A) and (B), (A) or (B), not (A), not not (A), both De Morgan rewrites, and all triples A o1 (B o2 C) / (A o1 B) o2 C over a sub-pool of 8 (thorough 14) parts x the four operator pairs are compared with the 3x3 / 3x1 outcome table applied to the implementation's own outcomes of A and B evaluated alone. Distinct by construction; non-trivial = composite evaluated (every case exercises a connective). The evidence lists which table cells were observed.",
 		Assumptions: []string{"three-valued outcomes: an error is an error whatever boolean accompanies it (the (true,err) shape is C09's business)", "bounded: sub-expression pool and data set as stated"},
 		Run:         runC03,
 		Finalize: func(tier string, r *eng.Result) {
@@ -209,6 +209,44 @@ func runC03(c *eng.Ctx) {
 			check(pi, "notnot", &Not{X: &Not{X: A}}, func(d int) int { return a[d] }, func(d int) string { return "not:" + v3name[a[d]] })
 			// right-nested chains: A and (A or B)-style grouping through three operands
 			check(pi, "and-chain", &Bin{Or: false, L: A, R: &Bin{Or: false, L: A, R: A}}, func(d int) int { return and3(a[d], and3(a[d], a[d])) }, func(d int) string { return "and:" + v3name[a[d]] + "," + v3name[a[d]] })
+		}
+	}
+	// triples: every (A, B, C) over a sub-pool x the four operator pairs x both groupings; the inner node must be evaluated
+	// with ITS OWN operator's short-circuit rule whatever the outer operator is (a chain loop that carries the outer rule
+	// into a right operand of the other operator is only visible with three operands)
+	sub := []int{0, 1, 4, 12, 16, 17, 23, 30}
+	if c.Thorough() {
+		sub = []int{0, 1, 2, 4, 8, 12, 13, 16, 17, 22, 23, 24, 26, 30}
+	}
+	m := len(sub)
+	op3 := func(or bool) func(x, y int) int {
+		if or {
+			return or3
+		}
+		return and3
+	}
+	opn := map[bool]string{false: "and", true: "or"}
+	for ti := 0; ti < m*m*m; ti++ {
+		if !c.Mine(ti) || !c.Want("p", n*n+ti) {
+			continue
+		}
+		if c.Expired() {
+			return
+		}
+		ai, bi, ci := sub[ti/(m*m)], sub[ti/m%m], sub[ti%m]
+		A, B, C := pool[ai], pool[bi], pool[ci]
+		a, b, cc := alone[ai], alone[bi], alone[ci]
+		for _, o1 := range []bool{false, true} {
+			for _, o2 := range []bool{false, true} {
+				o1, o2 := o1, o2
+				f1, f2 := op3(o1), op3(o2)
+				// A o1 (B o2 C)
+				check(n*n+ti, "triple-right:"+opn[o1]+"("+opn[o2]+")", &Bin{Or: o1, L: A, R: &Bin{Or: o2, L: B, R: C}},
+					func(d int) int { return f1(a[d], f2(b[d], cc[d])) }, func(d int) string { return opn[o1] + ":" + v3name[a[d]] + "," + v3name[f2(b[d], cc[d])] })
+				// (A o1 B) o2 C
+				check(n*n+ti, "triple-left:("+opn[o1]+")"+opn[o2], &Bin{Or: o2, L: &Bin{Or: o1, L: A, R: B}, R: C},
+					func(d int) int { return f2(f1(a[d], b[d]), cc[d]) }, func(d int) string { return opn[o2] + ":" + v3name[f1(a[d], b[d])] + "," + v3name[cc[d]] })
+			}
 		}
 	}
 }
